@@ -21,7 +21,8 @@ type ufApp struct {
 	Name string // uf name
 	Arg  string // SMT term of the argument (String)
 	App  string // SMT term of the application
-	Kind string // bool|int
+	Kind string // bool|int|iri
+	ArgAtom bool
 }
 
 // Violation is one failed assertion / panic found on a path.
@@ -79,6 +80,11 @@ type pathCtx struct {
 	feasChecks    int
 	assertChecks  int
 	eqConst       map[string]string
+	distinct      map[string]bool
+	lits          map[string]string // string literal -> atom constant
+	litOrder      []string
+	atomStrUsed   bool
+	atomTerms     []string // atom-valued terms whose model class is needed for the tape (UF results)
 }
 
 func newPathCtx(run *Run, sol *solver, prefix []int32) *pathCtx {
@@ -88,7 +94,7 @@ func newPathCtx(run *Run, sol *solver, prefix []int32) *pathCtx {
 		tape: map[string]interface{}{}, covers: map[string]bool{}, notes: map[string]bool{},
 		touched: map[*ssa.Function]bool{}, budgets: map[string]int{}, counts: map[string]int{},
 		instrBudget: run.opts.InstrBudget, status: "ok", harness: run.harness,
-		urlConsts: map[string]bool{}, ghost: map[string]value{}, eqConst: map[string]string{},
+		urlConsts: map[string]bool{}, ghost: map[string]value{}, eqConst: map[string]string{}, distinct: map[string]bool{}, lits: map[string]string{},
 	}
 }
 
@@ -146,6 +152,81 @@ func splitEq(t string) (string, string, bool) {
 	return x, v, ok
 }
 
+// litAtom interns a string literal as a constant of sort Atom; distinct
+// literals are distinct atoms, and a literal that is a URL knows its host.
+func (p *pathCtx) litAtom(s string) string {
+	if a, ok := p.lits[s]; ok {
+		return a
+	}
+	name := fmt.Sprintf("|lit!%d|", len(p.lits))
+	p.sol.send("(declare-const " + name + " Atom)\n")
+	if p.atomStrUsed {
+		p.sol.send("(assert (= (atom_str " + name + ") " + smtString(s) + "))\n")
+	}
+	for _, o := range p.litOrder {
+		p.distinct[name+"\x00"+p.lits[o]] = true
+		p.distinct[p.lits[o]+"\x00"+name] = true
+	}
+	p.lits[s] = name
+	p.litOrder = append(p.litOrder, s)
+	if len(p.litOrder) > 1 {
+		var all []string
+		for _, o := range p.litOrder {
+			all = append(all, p.lits[o])
+		}
+		p.sol.send("(assert (distinct " + strings.Join(all, " ") + "))\n")
+	}
+	if u, err := url.Parse(s); err == nil && u.Scheme != "" && u.Host != "" {
+		h := p.litAtom(u.Host)
+		p.sol.send("(assert (= (iri_host " + name + ") " + h + "))\n")
+	}
+	return name
+}
+
+// splitEq2 recognises (= A B) for two arbitrary terms.
+func splitEq2(t string) (string, string, bool) {
+	if !strings.HasPrefix(t, "(= ") || !strings.HasSuffix(t, ")") {
+		return "", "", false
+	}
+	body := t[3 : len(t)-1]
+	depth, inStr := 0, false
+	split := -1
+	for i := 0; i < len(body); i++ {
+		c := body[i]
+		if inStr {
+			if c == '"' {
+				inStr = false
+			}
+			continue
+		}
+		switch c {
+		case '"':
+			inStr = true
+		case '|':
+			j := strings.IndexByte(body[i+1:], '|')
+			if j < 0 {
+				return "", "", false
+			}
+			i += j + 1
+		case '(':
+			depth++
+		case ')':
+			depth--
+		case ' ':
+			if depth == 0 {
+				if split >= 0 {
+					return "", "", false
+				}
+				split = i
+			}
+		}
+	}
+	if split < 0 {
+		return "", "", false
+	}
+	return body[:split], body[split+1:], true
+}
+
 // constOf returns the string constant a term is known to equal on this path.
 func (p *pathCtx) constOf(term string) (string, bool) {
 	v, ok := p.eqConst[term]
@@ -190,6 +271,12 @@ func (p *pathCtx) decide(term string, fr *frame) bool {
 	neg := smtNot(term)
 	if v, ok := p.known[neg]; ok {
 		return !v
+	}
+	if a, b, ok := splitEq2(term); ok && p.distinct[a+"\x00"+b] {
+		return false
+	}
+	if a, b, ok := splitEq2(neg); ok && p.distinct[a+"\x00"+b] {
+		return true
 	}
 	if x, lit, ok := splitEq(term); ok {
 		if c, ok := p.eqConst[x]; ok {
@@ -331,9 +418,12 @@ func (p *pathCtx) fresh(tag, kind string) *sym {
 	case "float":
 		p.declare(name, "(_ FloatingPoint 11 53)")
 		s = &sym{s: sFP, e: name}
-	case "string", "iri":
+	case "string":
 		p.declare(name, "String")
 		s = &sym{s: sStr, e: name}
+	case "iri":
+		p.declare(name, "Atom")
+		s = &sym{s: sAtom, e: name, pc: p}
 	default:
 		panic(engineErr("fresh: kind " + kind))
 	}
@@ -355,19 +445,22 @@ func (p *pathCtx) model() (map[string]interface{}, error) {
 		tape[k] = v
 	}
 	var terms []string
+	add := func(t string) { terms = append(terms, t) }
 	for _, in := range p.inputs {
-		terms = append(terms, in.Name)
-	}
-	for _, in := range p.inputs {
+		add(in.Name)
 		if in.Kind == "iri" {
-			terms = append(terms, "(url_host "+in.Name+")")
+			add("(iri_host " + in.Name + ")")
 		}
 	}
 	for _, u := range p.ufApps {
-		terms = append(terms, u.Arg, u.App)
+		add(u.Arg)
+		add(u.App)
 		if u.Kind == "iri" {
-			terms = append(terms, "(url_host "+u.App+")")
+			add("(iri_host " + u.App + ")")
 		}
+	}
+	for _, l := range p.litOrder {
+		add(p.lits[l])
 	}
 	if len(terms) == 0 {
 		return tape, nil
@@ -376,28 +469,54 @@ func (p *pathCtx) model() (map[string]interface{}, error) {
 	if err != nil {
 		return tape, err
 	}
-	// IRI renaming (DESIGN §3.4): model strings -> real, parseable URLs
-	iriVals := map[string]string{} // model string -> host
+	// atoms: equivalence classes of the model -> concrete strings
+	classLit := map[string]string{}
+	for _, l := range p.litOrder {
+		classLit[vals[p.lits[l]]] = l
+	}
+	hostOf := map[string]string{} // IRI class -> host class
+	note := func(term string) {
+		c := vals[term]
+		if h, ok := vals["(iri_host "+term+")"]; ok {
+			if _, seen := hostOf[c]; !seen {
+				hostOf[c] = h
+			}
+		}
+	}
 	for _, in := range p.inputs {
 		if in.Kind == "iri" {
-			s, _ := decodeSMTString(vals[in.Name])
-			h, _ := decodeSMTString(vals["(url_host "+in.Name+")"])
-			iriVals[s] = h
+			note(in.Name)
 		}
 	}
 	for _, u := range p.ufApps {
 		if u.Kind == "iri" {
-			s, _ := decodeSMTString(vals[u.App])
-			h, _ := decodeSMTString(vals["(url_host "+u.App+")"])
-			iriVals[s] = h
+			note(u.App)
 		}
 	}
-	ren := func(s string) string {
-		if h, ok := iriVals[s]; ok {
-			return renameIRI(s, h, p.urlConsts)
+	classIdx := map[string]int{}
+	idx := func(c string) int {
+		if i, ok := classIdx[c]; ok {
+			return i
 		}
-		return s
+		classIdx[c] = len(classIdx)
+		return classIdx[c]
 	}
+	hostName := func(hc string) string {
+		if l, ok := classLit[hc]; ok && l != "" {
+			return l
+		}
+		return fmt.Sprintf("h%d.example", idx(hc))
+	}
+	atomText := func(c string) string {
+		if l, ok := classLit[c]; ok {
+			return l
+		}
+		if hc, ok := hostOf[c]; ok {
+			return fmt.Sprintf("https://%s/iri/%d", hostName(hc), idx(c))
+		}
+		return fmt.Sprintf("atom%d", idx(c))
+	}
+	isAtomArg := func(t string) bool { _, ok := vals[t]; return ok && !strings.HasPrefix(vals[t], "\"") }
 	for _, in := range p.inputs {
 		raw := vals[in.Name]
 		switch in.Kind {
@@ -409,23 +528,26 @@ func (p *pathCtx) model() (map[string]interface{}, error) {
 			tape[in.Tag] = parseFP(raw)
 		case "string":
 			s, _ := decodeSMTString(raw)
-			tape[in.Tag] = ren(s)
+			tape[in.Tag] = s
 		case "iri":
-			s, _ := decodeSMTString(raw)
-			tape[in.Tag] = ren(s)
+			tape[in.Tag] = atomText(raw)
 		}
 	}
 	for _, u := range p.ufApps {
-		arg, _ := decodeSMTString(vals[u.Arg])
-		key := "uf:" + u.Name + ":" + ren(arg)
+		var arg string
+		if u.ArgAtom && isAtomArg(u.Arg) {
+			arg = atomText(vals[u.Arg])
+		} else {
+			arg, _ = decodeSMTString(vals[u.Arg])
+		}
+		key := "uf:" + u.Name + ":" + arg
 		switch u.Kind {
 		case "bool":
 			tape[key] = vals[u.App] == "true"
 		case "int":
 			tape[key] = parseBV(vals[u.App])
-		case "string", "iri":
-			s, _ := decodeSMTString(vals[u.App])
-			tape[key] = ren(s)
+		case "iri":
+			tape[key] = atomText(vals[u.App])
 		}
 	}
 	return tape, nil
